@@ -15,6 +15,7 @@ import (
 func init() {
 	vlib.Register("C01", "total", c01Total)
 	vlib.Register("C01", "wellformed", c01WellFormed)
+	vlib.Register("C01", "shapes", c01Shapes)
 }
 
 var c01Classes = []gopacket.LayerClass{
@@ -365,5 +366,60 @@ func c01WellFormed(c *vlib.Ctx) {
 			}
 		}
 		c.End()
+	}
+}
+
+// c01Shapes: many structured variants, each through one eager and one lazy packet with every renderer - the later
+// read-only uses are where a value that decoded without complaint (a 2-byte identifier of unknown type, an empty
+// option) is looked at for the first time.
+func c01Shapes(c *vlib.Ctx) {
+	cp := getCorpus()
+	idx := 0
+	for ti, t := range cp.Types {
+		if ti%c.NBatch != c.Batch {
+			continue
+		}
+		seeds := cp.Seeds[t]
+		for si := 0; si < min(len(seeds), c.Pick(3, 30)); si++ {
+			idx++
+			if !c.Begin(idx) {
+				continue
+			}
+			r := c.Rand(uint64(t), 31337, uint64(si))
+			seed := seeds[(si*11)%len(seeds)]
+			vs := cp.Shrinks(seed, c.Pick(160, 1200))
+			st, _ := cp.Structural(seed)
+			vs = append(vs, st...)
+			for _, b := range vs {
+				c01Light(c, r, t, b)
+			}
+			c.Count("shape_variants", len(vs))
+			c.End()
+		}
+	}
+}
+
+func c01Light(c *vlib.Ctx, r *vlib.Rand, t gopacket.LayerType, b []byte) {
+	for _, o := range []gopacket.DecodeOptions{{}, {Lazy: true, NoCopy: true, DecodeStreamsAsDatagrams: true}} {
+		var key, desc string
+		var hasErr bool
+		pi := vlib.Guard(func() {
+			p := gopacket.NewPacket(b, t, o)
+			c01Accessors(p, r.Fork(), true)
+			hasErr, key, desc = c01Bookkeeping(p)
+			if len(p.Layers()) >= 2 || hasErr {
+				c.NonTrivial(vlib.Mix(uint64(t), vlib.HashBytes(b), 5))
+			}
+		})
+		c.Evals(1)
+		det := map[string]any{"first_layer": t.String(), "input_hex": hx(b), "input_len": len(b), "mutation": "shape", "options": optString(o)}
+		if pi != nil {
+			c.Violation(pi.Key, fmt.Sprintf("decoding %s (%s) or a later read-only use panicked at %s:%d: %s", t, optString(o), pi.File, pi.Line, pi.Value), det)
+			return
+		}
+		if key != "" {
+			c.Violation(key, desc, det)
+			return
+		}
 	}
 }
